@@ -188,3 +188,8 @@ func TestReplay(t *testing.T) {
 func TestReplayHuge(t *testing.T) {
 	core.Replay(t, map[string]func(Huge) core.Result{"huge": RunHuge})
 }
+
+// FuzzState: coverage-guided search over the kept-state histories (thorough tier).
+func FuzzState(f *testing.F) {
+	core.FuzzProp(f, "state", genStateful, RunStateful)
+}
